@@ -2,14 +2,16 @@
 """seedstore.py ID SEEDNAME PROPERTY 'needs' 'caught_by' 'what' : keep a confirmed seeded change under /verif/seeded/SEEDNAME/"""
 import sys, os, shutil, json
 sid, name, prop, needs, caught, what = sys.argv[1:7]
-src = f"/tmp/seed/{sid}.out"; dst = f"/verif/seeded/{name}"
+root = os.environ.get("SEEDROOT", "/tmp/seed")
+src = f"{root}/{sid}.out"; dst = f"/verif/seeded/{name}"
 os.makedirs(dst, exist_ok=True)
 shutil.copy(f"{src}/patch.diff", f"{dst}/patch.diff")
 demo = open(f"{src}/DEMO_PATH.txt").read().split()[0]
-shutil.copy(f"/tmp/seed/{sid}/{demo}", f"{dst}/{os.path.basename(demo)}")
+shutil.copy(f"{root}/{sid}/{demo}", f"{dst}/{os.path.basename(demo)}")
 for f in ("NOTES.md", "confirm.log"):
     if os.path.exists(f"{src}/{f}"): shutil.copy(f"{src}/{f}", f"{dst}/{f}")
-cmd = [l for l in open(f"{src}/DEMO_PATH.txt").read().splitlines() if l.startswith("go test")]
+import re
+cmd = re.findall(r"go test[^\n`]*", open(f"{src}/DEMO_PATH.txt").read())
 meta = {"property": prop, "what": what, "needs_to_manifest": needs, "demo_path": demo, "demo_cmd": cmd[0] if cmd else "",
         "author": "independent sub-agent that saw only the property text and a scratch worktree",
         "confirmed": "tools/seedconfirm.sh: demo fails 3/3 with the change, passes 3/3 without it, full existing suite (go test ./...) passes with the change; see confirm.log",
